@@ -9,4 +9,5 @@ Extraction "model.ml"
   exact_lt_if exact_le_if exact_lt_fi exact_le_fi exact_eq_if
   lua_for_prefix nelua_prefix
   climb nelua_table lua_table
-  lua_run nelua_run mk_fdef mk_w f_se ceval comp.
+  lua_run nelua_run mk_fdef mk_w f_se ceval comp
+  vd_effects src_effects vd_wf vardecl_policy.
